@@ -39,7 +39,7 @@ class HookInterp(Interpreter):
         return self.run(*a, **k)
 
 
-def capture(module, inputs: Dict[str, torch.Tensor], backward: bool = True):
+def capture(module, inputs: Dict[str, torch.Tensor], backward: bool = True, call=None):
     """run `module` through apply_transform with a recording interpreter; returns (store, graphs, outputs)"""
     store: Dict[str, Any] = {}
     graphs = []
@@ -49,7 +49,7 @@ def capture(module, inputs: Dict[str, torch.Tensor], backward: bool = True):
         return HookInterp(gm, store)
     cm = apply_transform(module, backend)
     ins = {k: (v.clone().requires_grad_() if v.is_floating_point() else v) for k, v in inputs.items()}
-    y = cm(**ins)
+    y = call(cm, ins) if call else cm(**ins)
     outs = y if isinstance(y, tuple) else (y,)
     if backward:
         loss = sum(o.sum() for o in outs if isinstance(o, torch.Tensor) and o.is_floating_point() and o.requires_grad)
